@@ -278,26 +278,29 @@ type ClassDef struct {
 // glyph with a non-zero class, format 2 with maximal ranges); Impossible if
 // the format's 16-bit count field cannot hold the table.
 func MinClassDefSize(classes map[uint16]uint16) (f1, f2 int) {
-	if len(classes) == 0 {
-		return 6, 4
-	}
-	keys := make([]int, 0, len(classes))
+	arr := make([]uint16, 0x10000)
+	lo, hi := -1, -1
 	for g, c := range classes {
+		arr[g] = c
+	}
+	for g, c := range arr {
 		if c != 0 {
-			keys = append(keys, int(g))
+			if lo < 0 {
+				lo = g
+			}
+			hi = g
 		}
 	}
-	if len(keys) == 0 {
+	if lo < 0 {
 		return 6, 4
 	}
-	sort.Ints(keys)
-	f1 = 6 + 2*(keys[len(keys)-1]-keys[0]+1)
-	if keys[len(keys)-1]-keys[0]+1 > 0xFFFF {
+	f1 = 6 + 2*(hi-lo+1)
+	if hi-lo+1 > 0xFFFF {
 		f1 = Impossible // glyphCount is a 16-bit field
 	}
 	runs := 0
-	for i, g := range keys {
-		if i == 0 || g != keys[i-1]+1 || classes[uint16(g)] != classes[uint16(keys[i-1])] {
+	for g := lo; g <= hi; g++ {
+		if arr[g] != 0 && (g == lo || arr[g] != arr[g-1]) {
 			runs++
 		}
 	}
